@@ -357,7 +357,7 @@ func run19(c *core.Ctx) {
 	// handle chained from the operation's own handle that is used by two statements (count, then page)
 	{
 		seed := c.R.U64()
-		fin := core.Pick(c.R, []string{"Row", "RawRow", "TableRow", "SubQueryTwice", "SubQueryTwice", "SubQueryTwiceInOne"})
+		fin := core.Pick(c.R, []string{"Row", "RawRow", "TableRow", "SubQueryTwice", "SubQueryTwice", "SubQueryTwiceInOne", "FirstOrCreateMissing", "FirstOrCreateMissing", "FirstOrInitMissing"})
 		mk := func() op19 {
 			return func(db *gorm.DB) (outcome, string) {
 				g := newGen(core.NewRand(seed))
@@ -380,6 +380,28 @@ func run19(c *core.Ctx) {
 						row.Scan(&v)
 					}
 					return outcome{sql: tx.Statement.SQL.String(), vars: tx.Statement.Vars, err: tx.Error, res: tx}, "db." + fin + "()"
+				case "FirstOrCreateMissing", "FirstOrInitMissing":
+					// compound finishers on the not-found path: for real the lookup finds no row and the
+					// operation's last statement is the one that counts (the INSERT resp. the lookup itself);
+					// a dry run finds no row either
+					name := fmt.Sprintf("absent_%d", seed%100000)
+					tx := db.Where(Tag{C1: name})
+					d := fmt.Sprintf("db.Where(Tag{C1: %q})", name)
+					switch seed % 3 {
+					case 1:
+						tx = tx.Attrs(Tag{C2: int64(seed % 50)})
+						d += ".Attrs(Tag{C2})"
+					case 2:
+						tx = tx.Assign(map[string]interface{}{"c3": 1.5})
+						d += ".Assign(map{c3})"
+					}
+					var res *gorm.DB
+					if fin == "FirstOrCreateMissing" {
+						res = tx.FirstOrCreate(&Tag{})
+					} else {
+						res = tx.FirstOrInit(&Tag{})
+					}
+					return outcome{sql: res.Statement.SQL.String(), vars: res.Statement.Vars, err: res.Error, res: res, mainLast: true}, d + "." + strings.TrimSuffix(fin, "Missing") + "(&Tag{})"
 				case "SubQueryTwiceInOne":
 					sub := db.Model(&Tag{}).Select("id").Where("c2 > ?", l1.val)
 					res := db.Model(&Tag{}).Where("c1 <> ?", l2.val).Where("id IN (?) OR parent_id IN (?)", sub, sub).Find(&[]Tag{})
